@@ -1,5 +1,5 @@
 (* Property C14 — statements only.  Every theorem is closed by [exact] of a lemma from
-   Proofs/Reprepare_proofs.v; the statements are pinned again in /verif/pins/C14.v.
+   Proofs/Reprepare_proofs.v (round 4: Proofs/C14_round4.v); the statements are pinned again in /verif/pins/C14.v.
 
    Reading guide.  [greach ST init st]: st is reachable in the generic interleaving system — any
    number of concurrent EXECUTE / BATCH calls on any connections (with or without the
@@ -10,7 +10,7 @@
    [srun D ST ns (sinit init nodes) ls = Some st]: st is reached by the history ls of the
    specification system — nodes are state machines over {prepared, evicted, schema-changed,
    id-changing} events answering EXECUTE / BATCH / PREPARE as the protocol documents say. *)
-From SV Require Import Base.Prelude Base.Bytes Model.Reprepare Proofs.Reprepare_proofs.
+From SV Require Import Base.Prelude Base.Bytes Model.Reprepare Proofs.Reprepare_proofs Proofs.C14_round4.
 Open Scope N_scope.
 
 (* UNPREPARED, then a PREPARED with the same id, then r: the call sent EXECUTE, PREPARE of the
@@ -999,6 +999,80 @@ Example C14_ex_tag_sound_hyps :
   | (_, V_ok _) => true | _ => false end = true.
 Proof. vm_compute. repeat split; reflexivity. Qed.
 
+(* ---------------------------------------------------------------------------------- *)
+(* Deepening round 4 (proof-only): characterising theorems for extracted functions the  *)
+(* driver uses for a verdict and that had Examples only (Proofs/C14_round4.v)           *)
+(* ---------------------------------------------------------------------------------- *)
+
+(* the caller's raw view (ColumnIterator; [obs_of_outcome], [normal_result]): chunk_rows yields
+   [rows] iff these are nrows rows of ncols cells each and the cells start with them, in order *)
+Theorem C14_chunk_rows_spec : forall ncols nrows cells rows,
+  chunk_rows ncols nrows cells = Some rows <->
+  List.length rows = nrows /\ Forall (fun r => List.length r = ncols) rows /\
+  exists rest, cells = concat rows ++ rest.
+Proof. exact chunk_rows_spec. Qed.
+
+(* ... and it yields something iff there are at least ncols * nrows cells *)
+Theorem C14_chunk_rows_some_iff : forall ncols nrows cells,
+  (exists rows, chunk_rows ncols nrows cells = Some rows) <-> (ncols * nrows <= List.length cells)%nat.
+Proof. exact chunk_rows_some_iff. Qed.
+
+(* the caller's typed view (Row): decode_rows yields [rows] iff the raw view is [rows] without the
+   column tags, every typed row is tagged with exactly [cols], and every cell fits its column type *)
+Theorem C14_decode_rows_spec : forall cols nrows cells rows,
+  decode_rows cols nrows cells = Some rows <->
+  chunk_rows (List.length cols) nrows cells = Some (map (map snd) rows) /\
+  Forall (fun row => map fst row = cols /\ row_fits cols (map snd row)) rows.
+Proof. exact decode_rows_spec. Qed.
+
+(* [typed_ok] of obs_of_outcome: typed decoding succeeds iff the raw view exists and every raw row
+   fits the columns *)
+Theorem C14_typed_view_iff : forall cols nrows cells,
+  (exists rows, decode_rows cols nrows cells = Some rows) <->
+  (exists raw, chunk_rows (List.length cols) nrows cells = Some raw /\ Forall (row_fits cols) raw).
+Proof. exact decode_rows_typed_iff. Qed.
+
+(* the presented-id check of the bookkeeping: when a cell value m holds what the bookkeeping says
+   was announced last (columns, id, count consistent), a frame passes present_ok iff its
+   result_metadata_id and skip_metadata are the ones calculate_cached_metadata_params computes
+   from m — in particular the model's own frame built from m passes *)
+Theorem C14_present_ok_iff : forall an ext a f m,
+  cell_agrees an (xa_stmt a) m ->
+  (present_ok an ext a f = true <->
+   f_rmid f = cp_rmid ext (xa_use_cached a) m /\ f_skip f = cp_skip ext (xa_use_cached a) m).
+Proof. exact present_ok_iff_params. Qed.
+
+Theorem C14_present_ok_model_frame : forall an st ext a m,
+  cell_agrees an (xa_stmt a) m -> present_ok an ext a (mk_exec_frame st ext a m) = true.
+Proof. exact present_ok_model_frame. Qed.
+
+(* the property predicate evaluated on a mismatching EXECUTE operation is exactly its Prop reading
+   [PropExec]: one exchange, not UNPREPARED, normal result | UNPREPARED, PREPARE of the text, not
+   answered PREPARED(same id), an error and nothing resent | UNPREPARED, PREPARE, PREPARED(same id),
+   EXECUTE with the same id / values / consistency / serial consistency / page size / paging state /
+   timestamp, normal result of the last answer *)
+Theorem C14_prop_exec_ok_iff : forall ST fe a xs out,
+  prop_exec_ok ST fe a xs out = true <-> PropExec ST fe a xs out.
+Proof. exact prop_exec_ok_iff. Qed.
+
+(* non-vacuity: a cell that agrees with a non-trivial bookkeeping state; typed rows of two columns;
+   a raw view that exists while the typed one does not (a 3-byte int) *)
+Example C14_ex_round4 :
+  let an := mkAnn (fun _ => cA) (fun _ => Some [7;1]) (fun _ => false) in
+  let cells := [Some [0;0;0;1]; Some [104;105]; None; Some [111]] in
+  cell_agrees an 0 (meta_of_cols (Some [7;1]) cA) /\
+  cell_agrees (mkAnn (fun _ => []) (fun _ => None) (fun _ => false)) 0 mock_empty /\
+  List.length cA = 2%nat /\
+  (exists rows, decode_rows cA 2 cells = Some rows /\ List.length rows = 2%nat) /\
+  chunk_rows 2 2 cells = Some [[Some [0;0;0;1]; Some [104;105]]; [None; Some [111]]] /\
+  chunk_rows 2 2 [Some [0;0;1]; Some [104]; None; None] <> None /\
+  decode_rows cA 2 [Some [0;0;1]; Some [104]; None; None] = None /\
+  chunk_rows 2 3 cells = None.
+Proof.
+  cbv zeta. repeat split; try (vm_compute; congruence).
+  vm_compute. eexists. split; reflexivity.
+Qed.
+
 Print Assumptions C14_transparent.
 Print Assumptions C14_direct.
 Print Assumptions C14_id_changed.
@@ -1034,3 +1108,10 @@ Print Assumptions C14_known_class_prepb_sound.
 Print Assumptions C14_stale_check_tag_sound.
 Print Assumptions C14_plain_node_check_sound.
 Print Assumptions C14_plain_node_check_spec.
+Print Assumptions C14_chunk_rows_spec.
+Print Assumptions C14_chunk_rows_some_iff.
+Print Assumptions C14_decode_rows_spec.
+Print Assumptions C14_typed_view_iff.
+Print Assumptions C14_present_ok_iff.
+Print Assumptions C14_present_ok_model_frame.
+Print Assumptions C14_prop_exec_ok_iff.
